@@ -23,12 +23,21 @@ ASSUMPTIONS = ["OS behaviour (mkdir, open, atomicity of a single write call, enc
 TRUSTED_BASE = ["hashlib / os.stat for the snapshot"]
 
 
+_SHA: dict = {}
+
+
 def snap(root: Path) -> dict:
     out = {}
     for p in sorted(root.rglob("*")):
         st = p.lstat()
         if p.is_file():
-            out[str(p.relative_to(root))] = ("f", st.st_size, hashlib.sha256(p.read_bytes()).hexdigest(), st.st_mtime_ns)
+            # the digest is computed once per (path, inode, size, mtime_ns, ctime_ns): a file whose status is untouched is unchanged
+            key = (str(p), st.st_ino, st.st_size, st.st_mtime_ns, st.st_ctime_ns)
+            if key not in _SHA:
+                if len(_SHA) > 20000:
+                    _SHA.clear()
+                _SHA[key] = hashlib.sha256(p.read_bytes()).hexdigest()
+            out[str(p.relative_to(root))] = ("f", st.st_size, _SHA[key], st.st_mtime_ns)
         else:
             out[str(p.relative_to(root))] = ("d",)
     return out
@@ -81,7 +90,7 @@ def build_tree(rng, root: Path):
             p.write_text(f"#include '{rel}'\n" + p.read_text())
     # bystanders with the names a careless writer might use for scratch / backup copies of any target in this tree
     # (other endings of the same stem, the prefixed name): unrelated files of the user, they must survive every operation
-    for d in dirs + [root / "x1" / "x2"]:
+    for d in (dirs + [root / "x1" / "x2"]) if rng.random() < 0.35 else []:      # in about a third of the trees
         d.mkdir(parents=True, exist_ok=True)
         for stem in [q.stem for q, _ in files if q.parent == d] + ["parsed", "brandnew", "deepnew", "new", "keepme", "casefile", "parsed.casefile"]:
             for ending in (".tmp", "~"):
